@@ -404,7 +404,9 @@ struct Model
   std::vector<Mat<L, R::Dim>> Mg;
   std::vector<VPow<R>> V;  // powers of hat(v_j), v_j = g_j (-) g_{j-1}, j >= 1
   std::vector<L> vn;       // |v_j|_inf
-  explicit Model(const std::vector<G> & g)
+  Model() = default;
+  explicit Model(const std::vector<G> & g) { assign(g); }
+  void assign(const std::vector<G> & g)
   {
     const size_t n = g.size();
     Mg.resize(n);
@@ -604,7 +606,9 @@ void eval_space(const char * gname, const Alpha<G> & A, const SeqPolicy & pol)
     if (cfg.duplicate_of_simple()) c.trivial();
     const std::vector<G> ctrl = build_ctrl(cfg, A);
     const smooth::BSpline<K, G> spl(cfg.t0, cfg.dt, ctrl);
-    const Model<G> mdl(ctrl);
+    // per-thread buffers are reused between cases (no heap churn of ~100 kB blocks per case)
+    thread_local Model<G> mdl;
+    mdl.assign(ctrl);
     const int nint  = cfg.N - K;
     const double t0 = cfg.t0, dt = cfg.dt;
 
@@ -619,15 +623,19 @@ void eval_space(const char * gname, const Alpha<G> & A, const SeqPolicy & pol)
       c.require("ctrl_pts().size() = N", int(spl.ctrl_pts().size()) == cfg.N);
     }
     const std::vector<double> ts = make_times(nint, t0, dt, spl.t_min(), spl.t_max());
-    std::vector<LibOut<G>> lib(ts.size());
-    std::vector<L> xs(ts.size()), ws(ts.size());
+    thread_local std::vector<LibOut<G>> lib;
+    thread_local std::vector<L> xs, ws;
+    lib.resize(ts.size());
+    xs.resize(ts.size());
+    ws.resize(ts.size());
     // per knot: Lipschitz data of the reference from the adjacent spans (filled when the exact knot time is visited)
     struct KnotL
     {
       L m1 = 0, m2 = 0, a = 0, j = 0, sn = 0, msc = 1, vw = 1;
       int sides = 0;
     };
-    std::vector<KnotL> kl(size_t(nint + 1));
+    thread_local std::vector<KnotL> kl;
+    kl.assign(size_t(nint + 1), KnotL{});
     auto add_knot = [&](KnotL & q, const RefOut<R> & ro, int s) {
       q.m1  = std::max(q.m1, ro.M1max);
       q.m2  = std::max(q.m2, ro.M2max);
